@@ -7,7 +7,7 @@ Open Scope Z_scope.
 
 Definition good_init (s : shared) (ts : list thread) : Prop :=
   0 <= s_word s < W64 /\ wf s /\ Forall fresh_thread ts /\ Z.of_nat (length ts) < LOCKED /\
-  w_readers (s_word s) = 0.
+  w_readers (s_word s) = 0 /\ init_clean s.
 
 Definition total0 (s : shared) (ts : list thread) : Z :=
   persisted s + w_extra (s_word s) + sumf unbegun ts.
@@ -15,7 +15,7 @@ Definition total0 (s : shared) (ts : list thread) : Z :=
 Lemma reach_inv np s0 ts0 sched : good_init s0 ts0 ->
   Inv (total0 s0 ts0) (run np sched (s0, ts0)).
 Proof.
-  intros (A & B & C & D & E). apply inv_run. apply inv_init; assumption.
+  intros (A & B & C & D & E & G). apply inv_run. apply inv_init; assumption.
 Qed.
 
 Lemma sumf_le f g l : (forall t, In t l -> f t <= g t) -> sumf f l <= sumf g l.
@@ -54,7 +54,7 @@ Theorem upper_bound np s0 ts0 sched : good_init s0 ts0 ->
 Proof.
   intros G. pose proof (reach_inv np _ _ sched G) as I.
   destruct (run np sched (s0, ts0)) as [s ts].
-  destruct I as (r & h & e & F & C & TL & W & _ & _ & _ & LE & _).
+  destruct I as (r & h & e & F & C & TL & W & _ & _ & _ & _ & LE & _).
   rewrite (fields_extra _ _ _ _ F). unfold total0 in LE.
   assert (0 <= sumf carry ts).
   { apply sumf_nonneg. intros t Ht. rewrite Forall_forall in TL. apply (tl_measures t (TL t Ht)). }
@@ -64,12 +64,15 @@ Proof.
 Qed.
 
 Lemma done_measures ts : all_done ts = true ->
-  sumf carry ts = 0 /\ sumf undep ts = 0 /\ sumf unbegun ts = 0 /\ sumf rd ts = 0 /\ sumf lk ts = 0.
+  sumf carry ts = 0 /\ sumf undep ts = 0 /\ sumf unbegun ts = 0 /\ sumf rd ts = 0 /\ sumf lk ts = 0 /\
+  sumf pendI ts = 0 /\ sumf pendR ts = 0 /\ sumf look ts = 0 /\ sumf xr ts = 0.
 Proof.
   induction ts as [|t ts IH]; cbn [all_done forallb sumf]; [intros; lia|].
-  intros H. apply andb_true_iff in H as [Ht H]. destruct (IH H) as (A & B & C & D & E).
-  assert (M : carry t = 0 /\ undep t = 0 /\ unbegun t = 0 /\ rd t = 0 /\ lk t = 0).
-  { unfold is_done in Ht. unfold carry, undep, unbegun, rd, lk. destruct (t_pc t); try discriminate. lia. }
+  intros H. apply andb_true_iff in H as [Ht H]. destruct (IH H) as (A & B & C & D & E & P1 & P2 & P3 & P4).
+  assert (M : carry t = 0 /\ undep t = 0 /\ unbegun t = 0 /\ rd t = 0 /\ lk t = 0 /\
+              pendI t = 0 /\ pendR t = 0 /\ look t = 0 /\ xr t = 0).
+  { unfold is_done in Ht. unfold carry, undep, unbegun, rd, lk, pendI, pendR, look, xr.
+    destruct (t_pc t); try discriminate. lia. }
   lia.
 Qed.
 
@@ -83,10 +86,36 @@ Theorem exact_at_quiescence np s0 ts0 sched : good_init s0 ts0 ->
 Proof.
   intros G. pose proof (reach_inv np _ _ sched G) as I.
   destruct (run np sched (s0, ts0)) as [s ts].
-  destruct I as (r & h & e & F & C & TL & W & _ & _ & _ & _ & EQ).
-  intros D S. destruct (done_measures _ D) as (A & B & _ & Rz & Lz).
+  destruct I as (r & h & e & F & C & TL & W & _ & _ & _ & _ & _ & EQ).
+  intros D S. destruct (done_measures _ D) as (A & B & _ & Rz & Lz & _).
   rewrite (fields_extra _ _ _ _ F), (fields_readers _ _ _ _ F). specialize (EQ S).
   unfold total0 in EQ. unfold cnt_ok in C. rewrite LOCKED_v in *. split; lia.
+Qed.
+
+(* once a counter file is open and all calls have returned, nothing remains
+   unpersisted, and a valid pointer is the CURRENT mapping's (increments after a
+   rotation land only in the new file) *)
+Theorem nothing_unpersisted np s0 ts0 sched : good_init s0 ts0 ->
+  let '(s, ts) := run np sched (s0, ts0) in
+  all_done ts = true -> s_cur s <> None ->
+  w_extra (s_word s) = 0 /\ (w_have (s_word s) = true -> s_ptr s = s_cur s).
+Proof.
+  intros G. pose proof (reach_inv np _ _ sched G) as I.
+  destruct (run np sched (s0, ts0)) as [s ts].
+  destruct I as (r & h & e & F & C & TL & W & _ & _ & (S1 & S2 & S3 & S4) & _).
+  intros D Hc. destruct (done_measures _ D) as (_ & _ & _ & Rz & Lz & P1 & P2 & P3 & _).
+  rewrite (fields_extra _ _ _ _ F), (fields_have _ _ _ _ F).
+  rewrite Rz, Lz, P1, P2, P3 in *.
+  pose proof F as (_ & _ & He).
+  assert (Fresh : h = true -> s_ptr s = s_cur s).
+  { intros Hh. destruct (s_ptr s) as [g|] eqn:Ep; destruct (s_cur s) as [g'|] eqn:Ec; try congruence.
+    - destruct (Nat.eq_dec g g') as [->|Ne]; [reflexivity|].
+      assert (1 <= 0) by (apply S1; [exact Hh | congruence | reflexivity]). lia.
+    - assert (1 <= 0) by (apply S1; [exact Hh | congruence | reflexivity]). lia. }
+  split; [|exact Fresh].
+  destruct (Z_le_gt_dec e 0) as [Hle|Hgt]; [lia|].
+  destruct (S4 ltac:(lia)) as [X|[X|[[Hh Hp]|X]]]; try lia.
+  specialize (Fresh Hh). rewrite Hp in Fresh. congruence.
 Qed.
 
 (* no call dereferences a nil counter pointer *)
